@@ -1109,6 +1109,7 @@ class SyncState:  # pylint: disable=too-many-instance-attributes, too-many-publi
             if ent.storage_id is not None:
                 if ent.is_trash:
                     self._storage.delete(tag, ent.storage_id)
+                    ent.storage_id = None
                 else:
                     self._storage.update(tag, ent.serialize(), ent.storage_id)
             else:
